@@ -48,6 +48,8 @@ fn translate_block(
     address: u64,
     options: &Options,
 ) -> Result<BlockTranslationResult, Error> {
+    crate::translator::ensure_block_fits_address_space(address, bytes.len())?;
+
     let mode = capstone::CS_MODE_32 | capstone::CS_MODE_BIG_ENDIAN;
     let cs = match capstone::Capstone::new(capstone::cs_arch::CS_ARCH_PPC, mode) {
         Ok(cs) => cs,
